@@ -63,15 +63,35 @@ macro_rules! zfam {
 zfam!(Z1, RZ1, 2u8);
 zfam!(Z2, RZ2, 3u8);
 
-pub const NFAM: u8 = 9;
+/// A task that resolves four same-hash resources of different types back to back (two newtypes, two unit structs).
+#[derive(Clone, Copy, PartialEq, Eq, Hash)]
+pub struct Both(pub u8);
+impl std::fmt::Debug for Both { fn fmt(&self, f: &mut std::fmt::Formatter<'_>) -> std::fmt::Result { write!(f, "K({})", self.0) } }
+impl Task for Both {
+  type Output = (u8, u8, Option<u8>);
+  fn execute<C: Context>(&self, ctx: &mut C) -> Self::Output {
+    let a = ctx.read(&RA(self.0), MapEqualsChecker).ok().and_then(|r| r.copied());
+    let b = ctx.read(&RB(self.0), MapEqualsChecker).ok().and_then(|r| r.copied());
+    let z1 = ctx.read(&RZ1, MapEqualsChecker).ok().and_then(|r| r.copied());
+    let z2 = ctx.read(&RZ2, MapEqualsChecker).ok().and_then(|r| r.copied());
+    (4, self.0, Some(both_digest(a, b, z1, z2)))
+  }
+}
+fn both_digest(a: Option<u8>, b: Option<u8>, z1: Option<u8>, z2: Option<u8>) -> u8 {
+  let d = |x: Option<u8>| x.map(|v| v + 1).unwrap_or(0);
+  d(a) + 4 * d(b) + 16 * d(z1) + 64 * d(z2)
+}
 
-/// 0 = A, 1 = B, 2 = Box<A>, 3 = Rc<A>, 4 = Arc<A>, 5 = Box<B>, 6 = Z1, 7 = Z2, 8 = Box<Z1> (zero-sized: id is always 0)
+pub const NFAM: u8 = 10;
+
+/// 0 = A, 1 = B, 2 = Box<A>, 3 = Rc<A>, 4 = Arc<A>, 5 = Box<B>, 6 = Z1, 7 = Z2, 8 = Box<Z1> (zero-sized: id is always 0),
+/// 9 = Both (reads RA(id), RB(id), RZ1, RZ2 back to back)
 #[derive(Clone, Copy, Debug, Serialize, Deserialize, PartialEq, Eq, Hash, PartialOrd, Ord)]
 pub struct Spec { pub fam: u8, pub id: u8 }
 
 impl Spec {
-  fn base(&self) -> u8 { match self.fam % NFAM { 1 | 5 => 1, 6 | 8 => 2, 7 => 3, _ => 0 } }
-  fn canon(&self) -> Spec { let fam = self.fam % NFAM; Spec { fam, id: if fam >= 6 { 0 } else { self.id } } }
+  fn base(&self) -> u8 { match self.fam % NFAM { 1 | 5 => 1, 6 | 8 => 2, 7 => 3, 9 => 4, _ => 0 } }
+  fn canon(&self) -> Spec { let fam = self.fam % NFAM; Spec { fam, id: if (6..=8).contains(&fam) { 0 } else { self.id } } }
 }
 
 #[derive(Clone, PartialEq, Eq, Hash, Debug)]
@@ -88,7 +108,8 @@ impl Task for Root {
       5 => ctx.require(&Box::new(B(s.id)), EqualsChecker),
       6 => ctx.require(&Z1, EqualsChecker),
       7 => ctx.require(&Z2, EqualsChecker),
-      _ => ctx.require(&Box::new(Z1), EqualsChecker),
+      8 => ctx.require(&Box::new(Z1), EqualsChecker),
+      _ => ctx.require(&Both(s.id), EqualsChecker),
     }).collect()
   }
 }
@@ -106,6 +127,7 @@ fn spec_of(k: &dyn KeyObj) -> Option<Spec> {
   if a.downcast_ref::<Z1>().is_some() { return Some(Spec { fam: 6, id: 0 }); }
   if a.downcast_ref::<Z2>().is_some() { return Some(Spec { fam: 7, id: 0 }); }
   if a.downcast_ref::<Box<Z1>>().is_some() { return Some(Spec { fam: 8, id: 0 }); }
+  if let Some(x) = a.downcast_ref::<Both>() { return Some(Spec { fam: 9, id: x.0 }); }
   None
 }
 
@@ -115,13 +137,13 @@ impl Tracker for ExecTracker {
 }
 
 #[derive(Clone, Debug, Serialize, Deserialize, PartialEq, Eq, Hash)]
-pub enum IStep { Session, ChangeA { id: u8, val: Option<u8> }, ChangeB { id: u8, val: Option<u8> }, ChangeZ { which: u8, val: Option<u8> } }
+pub enum IStep { Session, BottomUp, ChangeA { id: u8, val: Option<u8> }, ChangeB { id: u8, val: Option<u8> }, ChangeZ { which: u8, val: Option<u8> } }
 
 #[derive(Clone, Debug, Serialize, Deserialize, PartialEq, Eq, Hash)]
 pub struct ICase { pub specs: Vec<Spec>, pub steps: Vec<IStep> }
 
 fn key_obj(s: &Spec) -> Box<dyn KeyObj> {
-  match s.fam % NFAM { 0 => Box::new(A(s.id)), 1 => Box::new(B(s.id)), 2 => Box::new(Box::new(A(s.id))), 3 => Box::new(Rc::new(A(s.id))), 4 => Box::new(Arc::new(A(s.id))), 5 => Box::new(Box::new(B(s.id))), 6 => Box::new(Z1), 7 => Box::new(Z2), _ => Box::new(Box::new(Z1)) }
+  match s.fam % NFAM { 0 => Box::new(A(s.id)), 1 => Box::new(B(s.id)), 2 => Box::new(Box::new(A(s.id))), 3 => Box::new(Rc::new(A(s.id))), 4 => Box::new(Arc::new(A(s.id))), 5 => Box::new(Box::new(B(s.id))), 6 => Box::new(Z1), 7 => Box::new(Z2), 8 => Box::new(Box::new(Z1)), _ => Box::new(Both(s.id)) }
 }
 fn hash_of(k: &dyn KeyObj) -> u64 { let mut h = DefaultHasher::new(); k.hash(&mut h); h.finish() }
 
@@ -153,6 +175,8 @@ pub fn check(case: &ICase, stats: &mut Stats) -> CheckResult {
   let mut ra: BTreeMap<u8, u8> = BTreeMap::new();
   let mut rb: BTreeMap<u8, u8> = BTreeMap::new();
   let mut rz: [Option<u8>; 2] = [None, None];
+  // resources changed since the last build: (type 0 RA / 1 RB / 2 RZ1 / 3 RZ2, id)
+  let mut changed: Vec<(u8, u8)> = vec![];
   // what each distinct key saw at its last execution
   let mut seen: BTreeMap<Spec, Option<u8>> = BTreeMap::new();
   let mut root_seen: Option<Vec<(u8, u8, Option<u8>)>> = None;
@@ -162,6 +186,7 @@ pub fn check(case: &ICase, stats: &mut Stats) -> CheckResult {
   for (i, st) in case.steps.iter().enumerate() {
     match st {
       IStep::ChangeA { id, val } => {
+        if !changed.contains(&(0, *id)) { changed.push((0, *id)); }
         let m = pie.resource_state_mut::<RA>().get_global_map_mut();
         match val { Some(v) => { m.insert(RA(*id), *v); ra.insert(*id, *v); } None => { m.remove(&RA(*id)); ra.remove(id); } }
         // The other resource type must not see it.
@@ -169,6 +194,7 @@ pub fn check(case: &ICase, stats: &mut Stats) -> CheckResult {
         if other != rb.get(id).copied() { return Err(Failure::new(format!("step {}: changing resource RA({}) changed what RB({}) holds: {:?}", i, id, id, other))); }
       }
       IStep::ChangeB { id, val } => {
+        if !changed.contains(&(1, *id)) { changed.push((1, *id)); }
         let m = pie.resource_state_mut::<RB>().get_global_map_mut();
         match val { Some(v) => { m.insert(RB(*id), *v); rb.insert(*id, *v); } None => { m.remove(&RB(*id)); rb.remove(id); } }
         let other = pie.resource_state_mut::<RA>().get_global_map_mut().get(&RA(*id)).copied();
@@ -176,6 +202,7 @@ pub fn check(case: &ICase, stats: &mut Stats) -> CheckResult {
       }
       IStep::ChangeZ { which, val } => {
         let w = (*which % 2) as usize;
+        if !changed.contains(&(2 + w as u8, 0)) { changed.push((2 + w as u8, 0)); }
         if w == 0 { let m = pie.resource_state_mut::<RZ1>().get_global_map_mut(); match val { Some(v) => { m.insert(RZ1, *v); } None => { m.remove(&RZ1); } } }
         else { let m = pie.resource_state_mut::<RZ2>().get_global_map_mut(); match val { Some(v) => { m.insert(RZ2, *v); } None => { m.remove(&RZ2); } } }
         rz[w] = *val;
@@ -183,13 +210,25 @@ pub fn check(case: &ICase, stats: &mut Stats) -> CheckResult {
         let o2 = pie.resource_state_mut::<RZ2>().get_global_map_mut().get(&RZ2).copied();
         if [o1, o2] != rz { return Err(Failure::new(format!("step {}: after changing the zero-sized resource #{} the two zero-sized resources hold {:?}, expected {:?}", i, w, [o1, o2], rz))); }
       }
-      IStep::Session => {
+      IStep::Session | IStep::BottomUp => {
         EXECS.with(|e| e.borrow_mut().clear());
-        let out = pie.new_session().require(&Root(specs.clone()));
+        let out = {
+          let mut session = pie.new_session();
+          if matches!(st, IStep::BottomUp) {
+            stats.class("bottom_up_step");
+            let mut bu = session.create_bottom_up_build();
+            for (ty, id) in &changed {
+              match ty { 0 => bu.schedule_tasks_affected_by(&RA(*id)), 1 => bu.schedule_tasks_affected_by(&RB(*id)), 2 => bu.schedule_tasks_affected_by(&RZ1), _ => bu.schedule_tasks_affected_by(&RZ2) }
+            }
+            bu.update_affected_tasks();
+          }
+          session.require(&Root(specs.clone()))
+        };
+        changed.clear();
         let mut execs = EXECS.with(|e| e.borrow().clone());
         execs.sort();
         // Expected: each distinct key executes iff never executed or its own resource changed since.
-        let cur = |s: &Spec| -> Option<u8> { match s.base() { 0 => ra.get(&s.id).copied(), 1 => rb.get(&s.id).copied(), 2 => rz[0], _ => rz[1] } };
+        let cur = |s: &Spec| -> Option<u8> { match s.base() { 0 => ra.get(&s.id).copied(), 1 => rb.get(&s.id).copied(), 2 => rz[0], 3 => rz[1], _ => Some(both_digest(ra.get(&s.id).copied(), rb.get(&s.id).copied(), rz[0], rz[1])) } };
         let mut want_exec: Vec<Spec> = vec![];
         // The root validates its requires in order and stops at the first inconsistent one; keys after that are
         // re-required by the re-executing root. Either way every distinct key is made consistent exactly once.
@@ -210,6 +249,7 @@ pub fn check(case: &ICase, stats: &mut Stats) -> CheckResult {
           return Err(Failure::new(format!("step {}: executed task keys {:?}, but by (type, value) identity exactly {:?} have to execute (each once)", i, execs, want_exec)));
         }
         let want_out: Vec<(u8, u8, Option<u8>)> = specs.iter().map(|s| (s.base(), s.id, cur(s))).collect();
+        if specs.iter().any(|s| s.fam == 9) { stats.class("session_with_task_reading_same_hash_resources_back_to_back"); }
         if out != want_out {
           return Err(Failure::new(format!("step {}: root returned {:?}, expected {:?} (a key received another key's cached output?)", i, out, want_out)));
         }
@@ -224,6 +264,7 @@ fn spec() -> impl Strategy<Value=Spec> { (0u8..NFAM, 0u8..3).prop_map(|(fam, id)
 fn istep() -> impl Strategy<Value=IStep> {
   prop_oneof![
     3 => Just(IStep::Session),
+    2 => Just(IStep::BottomUp),
     2 => (0u8..3, proptest::option::of(0u8..3)).prop_map(|(id, val)| IStep::ChangeA { id, val }),
     2 => (0u8..3, proptest::option::of(0u8..3)).prop_map(|(id, val)| IStep::ChangeB { id, val }),
     2 => (0u8..2, proptest::option::of(0u8..3)).prop_map(|(which, val)| IStep::ChangeZ { which, val }),
@@ -239,7 +280,7 @@ pub fn replay(path: &Path) -> Result<CheckResult, String> {
 }
 
 pub fn run(tier: Tier, seed: u64) -> i32 {
-  let rule = "proptest-generated key lists drawn from nine task types with identical representation, hash and Debug text (newtypes A(u8), B(u8), Box<A>, Rc<A>, Arc<A>, Box<B>, and the zero-sized unit structs Z1, Z2, Box<Z1>, whose boxes even share an address) and four resource types RA(u8)/RB(u8)/RZ1/RZ2 with colliding ids, x histories of sessions and changes to RA(i)/RB(i); oracle: dyn KeyObj equality holds iff same concrete type and equal value, equal keys hash equally (all pairs of separately constructed keys); inside a Pie instance a root task requires the listed keys: every distinct (type, value) executes exactly once when new or when its own resource changed, never because a same-bytes key of another type changed, and every key gets its own output; changing RA(i) never changes RB(i); non-trivial = case with two keys of equal bytes and different types; distinct by case hash";
+  let rule = "proptest-generated key lists drawn from nine task types with identical representation, hash and Debug text (newtypes A(u8), B(u8), Box<A>, Rc<A>, Arc<A>, Box<B>, and the zero-sized unit structs Z1, Z2, Box<Z1>, whose boxes even share an address) and four resource types RA(u8)/RB(u8)/RZ1/RZ2 with colliding ids, plus a task that reads RA(i), RB(i), RZ1, RZ2 back to back, x histories of top-down sessions, bottom-up builds (all changed resources reported) and changes to RA(i)/RB(i)/RZ1/RZ2; oracle: dyn KeyObj equality holds iff same concrete type and equal value, equal keys hash equally (all pairs of separately constructed keys); inside a Pie instance a root task requires the listed keys: every distinct (type, value) executes exactly once when new or when its own resource changed, never because a same-bytes key of another type changed, and every key gets its own output; changing RA(i) never changes RB(i); non-trivial = case with two keys of equal bytes and different types; distinct by case hash";
   let mut report = Report::new("C15", tier, seed, "exploration", rule);
   let known = Known::load("C15");
   super::prologue(&mut report, &known);
